@@ -111,7 +111,9 @@ def run(prog, rep):
             if src is None:
                 continue
             rep.touch(f)
-            site = '%s@%s|%s(%s)' % (f.pq, f.relfile.rsplit('/', 1)[-1], s['n'], src[0])
+            # the site is named by file, operation and source of the count (not by the enclosing function: extracting the pre-sizing into a
+            # helper of the same header leaves the defect - and its identity - as it is)
+            site = '%s|%s(%s)' % (f.relfile.rsplit('/', 1)[-1], s['n'], src[0])
             if src[1] == 'dom':
                 rep.ok('R2.3', site + '|' + f.sym.get('targs', '')[:60],
                        sample={'function': f.pq, 'call': s['n'], 'count_from': src[0], 'why_safe': 'count of already materialised DOM nodes, bounded by the parsed input'},
